@@ -252,10 +252,11 @@ def run_case(text: str, T, duration):
 
 
 def _pre_k2(T: int, duration: int, pl: int) -> bool:
-    if not (T >= 0 and duration >= 0 and 0 <= pl < len(PLACEMENTS)):
+    # T is bounded because exactly_lib renders it (str(T)), which forks once per number of digits
+    tmax = ob.case()['tmax']
+    if not (0 <= T <= tmax and 0 <= duration <= tmax + 1 and 0 <= pl < len(PLACEMENTS)):
         return False
-    lo, hi = ob.case()['placements']
-    return lo <= pl < hi
+    return pl in ob.case()['placements']
 
 
 def k2_plumbing(T: int, duration: int, pl: int) -> bool:
@@ -304,20 +305,22 @@ def obligations(tier: str) -> List[Ob]:
            bound='seeded: oracle uses >=', timeout=120, expect=ob.REFUTE),
     ]
     sites = list(SITES)
+    quick_pl = (PLACEMENTS.index('absent'), PLACEMENTS.index('just-before'), PLACEMENTS.index('before-then-none'))
     for s in sites:
-        groups = [(0, len(PLACEMENTS))] if tier == 'quick' else [(i, i + 1) for i in range(len(PLACEMENTS))]
-        for lo, hi in groups:
+        groups = [quick_pl] if tier == 'quick' else [(i,) for i in range(len(PLACEMENTS))]
+        tmax = 99 if tier == 'quick' else 9999
+        for g in groups:
             obs.append(Ob(
-                name='K2:%s%s' % (s, '' if tier == 'quick' else ':' + PLACEMENTS[lo]), fn='k2_plumbing',
-                case=dict(site=s, placements=(lo, hi)), kernel='K2',
-                bound='site %s; timeout instruction placements %s; EVERY T >= 0 (literal K0 through the real parser) and '
-                      'EVERY duration >= 0 of the child' % (s, list(PLACEMENTS[lo:hi])),
-                timeout=1800, real=REAL_K2, stubs=(STUB, 'python_evaluate placeholder K0 -> symbolic int',
-                                                   'counting sandbox resolver', 'in-memory stdout/stderr'),
+                name='K2:%s%s' % (s, '' if tier == 'quick' else ':' + PLACEMENTS[g[0]]), fn='k2_plumbing',
+                case=dict(site=s, placements=tuple(g), tmax=tmax), kernel='K2',
+                bound='site %s; timeout instruction placements %s; every T in [0, %d] (literal K0 through the real parser) and '
+                      'every duration in [0, %d] of the child' % (s, [PLACEMENTS[i] for i in g], tmax, tmax + 1),
+                timeout=900, real=REAL_K2, stubs=(STUB, 'python_evaluate placeholder K0 -> symbolic int',
+                                                  'counting sandbox resolver', 'in-memory stdout/stderr'),
                 entry='MainProgram.execute([FILE])',
                 outside=('real termination of the child, wall-clock bound, children ignoring SIGTERM, pid liveness '
-                         '(subprocess / kernel)',)))
-    obs.append(Ob(name='K2:seeded-oracle-error', fn='k2_plumbing', case=dict(site='setup-shell', placements=(1, 2), oracle_bug=True),
+                         '(subprocess / kernel)', 'timeouts above the stated bound')))
+    obs.append(Ob(name='K2:seeded-oracle-error', fn='k2_plumbing', case=dict(site='setup-shell', placements=(1,), tmax=99, oracle_bug=True),
                   kernel='K2', bound='seeded: oracle ignores the timeout instruction', timeout=600, expect=ob.REFUTE))
     return obs
 
